@@ -832,6 +832,7 @@ def Q2d_seq(nms, r, t):
     # is then iterated over the input nms, and selected value with appropriate
     # prefixes / other terms yielded.
 
+    nms = _as_sequence(nms)  # any iterable of (n, m), also a generator
     u = r
     x = u ** 2
 
